@@ -45,6 +45,34 @@ def add_tag_lookalikes(rng, files):
     return out
 
 
+def add_case_twins(rng, files):
+    """two notes whose ZIDs differ only by letter case (`240510#0B` / `240510#0b`: the allocator hands out both on one day),
+    the twin placed on another page (or earlier on the same page) so that it is indexed first"""
+    out = dict(files)
+    names = sorted(files)
+    for rel in names:
+        lines = out[rel].split("\n")
+        idxs = [i for i, ln in enumerate(lines) if re.match(r"^[-ox~<>] (P\d )?(\d{6} )?\d{6}#\w*[A-Za-z]\w* ", ln)]
+        if idxs and rng.random() < 0.4:
+            i = rng.choice(idxs)
+            m = re.match(r"^([-ox~<>] (?:P\d )?(?:\d{6} )?)(\d{6}#)(\w{2,3})( .*)$", lines[i])
+            if not m or m.group(3).swapcase() == m.group(3) or any(ch in "IOQSgijlpqy" for ch in m.group(3).swapcase()):
+                continue  # (the lexer's ZID token, like the allocator, excludes these look-alike characters)
+            twin = m.group(1) + m.group(2) + m.group(3).swapcase() + " twin of a case-different ZID"
+            if twin.split("#")[0] + "#" + m.group(3).swapcase() in "\n".join(out.values()):
+                continue
+            dest = rng.choice(names)
+            dl = out[dest].split("\n") if dest != rel else lines
+            k = next((j for j, ln in enumerate(dl) if re.match(r"^[-ox~<>] ", ln)), None)
+            if k is None:
+                continue
+            dl.insert(k, twin)
+            if dest != rel:
+                out[dest] = "\n".join(dl)
+        out[rel] = "\n".join(lines)
+    return out
+
+
 def add_extended_zids(rng, files):
     """a note whose ZID extends another note's ZID by one character (3-character suffix), placed *above* it"""
     out = {}
@@ -186,7 +214,7 @@ def one_dir(ctx, res, rng, d):
     cfg = Z.write_config(ctx.tmp / "cfg.yml", template_pattern_map={r"^tmpl/(?P<name>[a-z]+)\.zo$": "made.zot"})
     model_reqs = []
     zdir.mkdir(parents=True)
-    files = add_extended_zids(rng, add_mentions(rng, add_tag_lookalikes(rng, G.gen_dir(rng, npages=(2, 4), with_zid=True, sections=True, date_prob=0.1, far_dates=False))))
+    files = add_case_twins(rng, add_extended_zids(rng, add_mentions(rng, add_tag_lookalikes(rng, G.gen_dir(rng, npages=(2, 4), with_zid=True, sections=True, date_prob=0.1, far_dates=False)))))
     G.write_dir(zdir, files)
     (zdir / "made.zot").write_text("# TEMPLATE made\n\n## {{ name }}\n")
     Z.clear_engine_cache()
@@ -198,7 +226,8 @@ def one_dir(ctx, res, rng, d):
     for r in rows:
         r["priority"] = f"P{r['priority']}" if r["priority"] is not None else None
     twins = [r for r in rows if any(o["zid"] == r["zid"] + "A" for o in rows)]
-    sample = rows if len(rows) <= 6 or ctx.tier == "thorough" else (twins[:2] + rng.sample(rows, 6 - len(twins[:2])))
+    twins += [r for r in rows if any(o["zid"] != r["zid"] and o["zid"].lower() == r["zid"].lower() for o in rows)][:2]
+    sample = rows if len(rows) <= 6 or ctx.tier == "thorough" else (twins[:4] + rng.sample(rows, max(0, 6 - len(twins[:4]))))
     for row in sample:
         for variant in dest_variants(rng, files, row["path"]):
             marker = rng.choice([None, "x", "~"])
